@@ -8,11 +8,13 @@ import (
 	"fmt"
 	"go/ast"
 	"go/constant"
+	"go/parser"
 	"go/token"
 	"go/types"
 	"os"
 	"path/filepath"
 	"sort"
+	"strconv"
 	"strings"
 
 	"golang.org/x/tools/go/packages"
@@ -44,6 +46,7 @@ type Out struct {
 	Unresolved      []string `json:"unresolved"`
 	FrameworkForbid []string `json:"framework_forbidden_calls"`
 	SourceConstants []string `json:"sourceConstants"` // values of the LintSource constants declared in package lint
+	RawNames        []string `json:"rawNames"`        // Name literals of every Register*Lint call in lints/**/*.go, read file by file whatever the build constraints
 }
 
 func main() {
@@ -133,6 +136,48 @@ func main() {
 			}
 		}
 	}
+
+	// ---- the raw census: every non-test .go file under lints/, parsed one by one (build constraints and file-name suffixes
+	//      do not hide a file from it), Register*Lint calls found syntactically, the Name literal read off the argument
+	filepath.Walk(filepath.Join(dir, "lints"), func(path string, info os.FileInfo, err error) error {
+		if err != nil || info.IsDir() || !strings.HasSuffix(path, ".go") || strings.HasSuffix(path, "_test.go") {
+			return nil
+		}
+		f, perr := parser.ParseFile(token.NewFileSet(), path, nil, 0)
+		if perr != nil {
+			return nil
+		}
+		ast.Inspect(f, func(n ast.Node) bool {
+			call, ok := n.(*ast.CallExpr)
+			if !ok || len(call.Args) != 1 {
+				return true
+			}
+			sel, ok := call.Fun.(*ast.SelectorExpr)
+			if !ok || !strings.HasPrefix(sel.Sel.Name, "Register") || !strings.HasSuffix(sel.Sel.Name, "Lint") {
+				return true
+			}
+			if x, ok := sel.X.(*ast.Ident); !ok || x.Name != "lint" {
+				return true
+			}
+			found := ""
+			ast.Inspect(call.Args[0], func(m ast.Node) bool {
+				kv, ok := m.(*ast.KeyValueExpr)
+				if !ok {
+					return true
+				}
+				if k, ok := kv.Key.(*ast.Ident); ok && k.Name == "Name" && found == "" {
+					if bl, ok := kv.Value.(*ast.BasicLit); ok && bl.Kind == token.STRING {
+						found, _ = strconv.Unquote(bl.Value)
+					}
+				}
+				return true
+			})
+			out.RawNames = append(out.RawNames, found)
+			return true
+		})
+		return nil
+	})
+	sort.Strings(out.RawNames)
 
 	// ---- registrations
 	regFns := map[string]string{"RegisterLint": "cert", "RegisterCertificateLint": "cert", "RegisterRevocationListLint": "crl", "RegisterOcspResponseLint": "ocsp"}
